@@ -104,14 +104,20 @@ def parseIngress (t : String) : List SvcPort :=
       some { port := n, target := n, proto := lp, userTLS := tls == "1", bind := cap == "1" }
     | _ => none
 
+/-- One letter per application-protocol list the code uses (anything else shows as `?`). -/
+def alpnCode (a : Alpn) : String :=
+  if a == Alpn.any then "0"
+  else if a == Alpn.mtlsHTTP then "H"
+  else if a == Alpn.allIstio then "A"
+  else if a == Alpn.mtlsTCPMxc then "T"
+  else if a == Alpn.plainHTTP then "P"
+  else "?"
+
 def LChain.show (c : LChain) : String :=
   let dst := match c.dst with
     | none => "*"
     | some p => toString p
-  let alpn := match c.chain.alpn with
-    | .any => "0"
-    | .istio => "1"
-    | .plain => "2"
+  let alpn := alpnCode c.chain.alpn
   let sock := match c.chain.sock with
     | .none => "0"
     | .tls => "1"
@@ -131,10 +137,7 @@ def LChain.showHbone (c : LChain) : String :=
   let dst := match c.dst with
     | none => "*"
     | some p => toString p
-  let alpn := match c.chain.alpn with
-    | .any => "0"
-    | .istio => "1"
-    | .plain => "2"
+  let alpn := alpnCode c.chain.alpn
   s!"{dst}:{alpn}.{boolTok c.chain.http}.{c.chain.sock.tok}"
 
 def showHbone (root : String) (pas : List PA) (w : Workload) (svc : List SvcPort) : String :=
@@ -143,10 +146,43 @@ def showHbone (root : String) (pas : List PA) (w : Workload) (svc : List SvcPort
   let inner := joinOrDash (sortStrings ((hboneInnerChains svc).map LChain.showHbone))
   s!"H={hboneTerminateSock.tok} F={fm.tok}.{(sockFor fm true).tok}.{(sockFor fm true).tok} I={inner}"
 
+/-- The destination ports the harness looks at. -/
+def inboundDests : List Nat := [80, 8080, 9090, 8081, 81, 9000, 7777]
+
+/-- `name:name:name:name`: the protocols of the services on 80, 8080, 9090, 81->8081 (`none` = no such service). -/
+def lprotoOf (n : String) : Option LProto :=
+  if n == "none" then none
+  else if n == "HTTP" || n == "HTTP2" || n == "GRPC" || n == "GRPC-Web" then some .http
+  else if n == "TCP" || n == "HTTPS" || n == "TLS" || n == "Mongo" || n == "Redis" || n == "MySQL" then some .tcp
+  else if n == "UDP" then some .unknown
+  else some .auto
+
+def servicesOf (t : String) : List SvcPort :=
+  match (t.splitOn ":").map lprotoOf with
+  | [a, b, c, d] =>
+    (match a with | some p => [({ port := 80, target := 80, proto := p } : SvcPort)] | none => []) ++
+    (match b with | some p => [({ port := 8080, target := 8080, proto := p } : SvcPort)] | none => []) ++
+    (match c with | some p => [({ port := 9090, target := 9090, proto := p } : SvcPort)] | none => []) ++
+    (match d with | some p => [({ port := 81, target := 8081, proto := p } : SvcPort)] | none => [])
+  | _ => inboundSvcPorts
+
+def showInboundWith (root : String) (pas : List PA) (w : Workload) (services ingress : List SvcPort) (merge icNone : Bool) : String :=
+  let cfgs := chainConfigs services ingress merge
+  let l := if icNone then inboundChainsNone root pas w ingress
+           else inboundChains root pas w cfgs (declaredPorts services ingress merge)
+  let dup := if dupMatches l == 0 then [] else [s!"dupmatch:{dupMatches l}"]
+  let ti := (inboundDests.filter (tlsInspectorOn l)).map (fun d => s!"ti:{d}")
+  joinOrDash (sortStrings ((if icNone then [] else ["bh:15006.0"]) ++ dup ++ ti ++ l.map LChain.show))
+
 def showInbound (root : String) (pas : List PA) (w : Workload) (ingress : List SvcPort) (merge : Bool) : String :=
   let cfgs := chainConfigs inboundSvcPorts ingress merge
   -- "bh:15006.0": the blackhole chain for the listener's own port, always there
-  joinOrDash (sortStrings ("bh:15006.0" :: (inboundChains root pas w cfgs (declaredPorts inboundSvcPorts ingress)).map LChain.show))
+  let l := inboundChains root pas w cfgs (declaredPorts inboundSvcPorts ingress merge)
+  -- "dupmatch:n": n chains repeat the filter chain match of another chain (Envoy rejects such a listener)
+  let dup := if dupMatches l == 0 then [] else [s!"dupmatch:{dupMatches l}"]
+  -- "ti:<d>": the TLS inspector is enabled for destination port d (of the ports the harness looks at)
+  let ti := (inboundDests.filter (tlsInspectorOn l)).map (fun d => s!"ti:{d}")
+  joinOrDash (sortStrings ("bh:15006.0" :: dup ++ ti ++ l.map LChain.show))
 
 def showKeys (root : String) (k : AKeys) : String :=
   encList (sortStrings ((if k.static then [s!"{root}/istio_converted_static_strict"] else []) ++
@@ -226,17 +262,25 @@ def step (s : DState) (toks : List String) : DState × String :=
   | ["il", ns, labels] =>
     let w : Workload := { ns := dec ns, labels := parseLabels labels }
     (s, showInbound s.root s.pas w [] false)
-  | ["cl", ns, labels, clientNs, kind] =>
-    -- the composed client decision end to end (CDS + EDS on the client, LDS on the server), one service on port 80
+  | ["cl", ns, labels, clientNs, kind, port] =>
+    -- the composed client decision end to end (CDS + EDS on the client, LDS on the server), one HTTP service on `port`
     let w : Workload := { ns := dec ns, labels := parseLabels labels }
+    let p := port.toNat?.getD 80
     let view := sidecarView s.root s.pas (dec clientNs) [w.ns]
     let external := kind == "external"
-    let passthrough := kind == "passthrough" || kind == "ptdisabled"
-    let be := bestEffortFull view w.ns external passthrough [kind == "ptdisabled"]
-    let c := !external && clusterHasAutoMTLS be
-    let e := if passthrough then "-" else boolTok (checkMtlsEnabledIn view none (kind != "noistio") w 80)
-    let sv := joinOrDash (sortStrings (((inboundChains s.root s.pas w [{ port := 80, target := 80, proto := .http }]).filter
-      (fun c => c.dst == some 80)).map LChain.show))
+    let passthrough := kind == "passthrough" || kind == "ptdisabled" || kind == "drpassthrough" || kind == "drptdisabled"
+    let epDisabled := kind == "ptdisabled" || kind == "drptdisabled"
+    let be := bestEffortFull view w.ns external passthrough [epDisabled]
+    -- an explicit DestinationRule TLS mode decides both the cluster socket and the endpoint label
+    let dr : Option DRMode := if kind == "drdisable" then some .disable else if kind == "dristio" then some .istioMutual else none
+    let c := match dr with
+      | some m => m == .istioMutual
+      | none => !external && clusterHasAutoMTLS be
+    let noEds := passthrough   -- resolution NONE / PASSTHROUGH load balancer: an ORIGINAL_DST cluster, no EDS endpoints
+    let e := if noEds then "-" else
+      boolTok (checkMtlsEnabledIn view dr (kind != "noistio" && !epDisabled) w p)
+    let sv := joinOrDash (sortStrings (((inboundChains s.root s.pas w [{ port := p, target := p, proto := .http }]).filter
+      (fun c => c.dst == some p)).map LChain.show))
     (s, s!"C={boolTok c} E={e} BE={be.tok} S={sv}")
   | ["ilh", ns, labels] =>
     let w : Workload := { ns := dec ns, labels := parseLabels labels }
@@ -244,6 +288,13 @@ def step (s : DState) (toks : List String) : DState × String :=
   | ["ils", ns, labels, ingress, merge] =>
     let w : Workload := { ns := dec ns, labels := parseLabels labels }
     (s, showInbound s.root s.pas w (parseIngress ingress) (merge == "1"))
+  | ["ils", ns, labels, ingress, merge, icNone] =>
+    let w : Workload := { ns := dec ns, labels := parseLabels labels }
+    (s, showInboundWith s.root s.pas w inboundSvcPorts (parseIngress ingress) (merge == "1") (icNone == "1"))
+  | ["ilp", ns, labels, protos] =>
+    -- other service protocols / fewer or no services
+    let w : Workload := { ns := dec ns, labels := parseLabels labels }
+    (s, showInboundWith s.root s.pas w (servicesOf protos) [] false false)
   | ["aq", ns, labels, ports] =>
     let w : Workload := { ns := dec ns, labels := parseLabels labels }
     (s, showAmbientG s.fx s.root s.pas w (parsePortList ports))
